@@ -5,6 +5,11 @@ V = os.path.dirname(os.path.dirname(os.path.abspath(__file__)))
 
 # id -> dict(level, engine, technique, text, note, design)
 CLAIMED = {
+ "C14": dict(level="exploration", engine="vsh-virtual",
+   technique="conservation monitor (in = out by length and hash; $(...) = stream minus trailing newlines) over the real shell on the virtual kernel, under FIFO, random preempting and bounded-DFS schedules",
+   text="Producer `gen` (pure function of its arguments) and consumer `sink` probes around 1-4 stage pipelines (builtin relays with odd read sizes, while-read loops), three forms of command substitution incl. nested, substitution around pipelines, quoted and expanding here-documents, pipelines started with stdin/stdout closed; payload sizes 0..4096 (thorough 10000) around every buffer boundary of the virtual pipe, newline patterns and 0-3 trailing newlines; 30/80 random schedules per scenario with preemption inside every read/write loop, bounded DFS (<=3 preemptions) for payloads <= 1030 bytes.",
+   note="Trusted: the gen/sink/relay probes (harness built-ins using only the public System traits). Virtual pipes are 1024 bytes; real pipes are sampled in C19.",
+   design="5/C14"),
  "C13": dict(level="exploration", engine="vsh-virtual",
    technique="schedule exploration of the real shell on the virtual kernel under our own executor (FIFO, depth-first enumeration of scheduling choices, preemption-bounded DFS, random preempting schedules) with a reference-interpreter oracle, logical deadlock detection and a process-table monitor",
    text="1500 (quick) / 30000 (thorough) generated race-free programs mixing 2-4 stage pipelines (incl. blocking producer/consumer pairs and writers whose reader exits early), async lists with $!/wait for one/several/all/unknown pids, nested subshells, command substitutions, pipefail; each run under FIFO, DFS over scheduling choices (cap 60/400), DFS with <=2 preemptions (cap 60/400) and 20/60 random preempting schedules (~10^5 / 10^7 runs). Checked per run: per-process traces and $? vs the model (hence schedule independence), $! identity, exit status, deadlock = no runnable task and no timer, no live or unreaped child at exit.",
